@@ -4,6 +4,7 @@ package main
 
 import (
 	"fmt"
+	"go/token"
 	"os"
 	"go/types"
 	"strings"
@@ -110,6 +111,21 @@ func (x *Exec) enterLoop(st *State, fr *Frame, from, to *ssa.BasicBlock, li *loo
 		nv := x.havocValue(st, fr.env[phi], phi.Type(), "phi_"+phi.Comment)
 		fr.env[phi] = nv
 		x.bindPhiName(fr, phi, nv)
+		if phi.Comment == "rangeindex" {
+			// built-in fact of go/ssa's range lowering: the index starts at -1 and only grows
+			if tv, ok := nv.(TV); ok {
+				st.Assume(app(">=", tv.T, "(- 1)"))
+				for _, in := range to.Instrs {
+					if b, ok := in.(*ssa.BinOp); ok && b.Op == token.LSS {
+						if y, ok := fr.env[b.Y]; ok {
+							if yt, ok := y.(TV); ok {
+								st.Assume(app("<", tv.T, yt.T)) // index < len(range operand)
+							}
+						}
+					}
+				}
+			}
+		}
 	}
 	for _, cl := range invs {
 		st.Assume(evalInv(cl))
